@@ -185,7 +185,10 @@ pub fn run_check(spec: &CheckSpec, tier: Tier) -> i32 {
                     }
                     let mut hit: Option<Finding> = None;
                     for f in &res.findings {
-                        if f.concerns("HARNESS") {
+                        // the simulator itself ran out of a resource (stack mappings of shuttle tasks):
+                        // not a statement about RainDB
+                        let sim_resource = f.detail.contains("Cannot allocate memory") && f.detail.contains("shuttle-");
+                        if f.concerns("HARNESS") || sim_resource {
                             harness_errors.lock().unwrap().push(format!("run {} ({:016x}): {}", i, rs, f.detail));
                             stop.store(true, Ordering::Relaxed);
                         } else if f.concerns(spec.prop) {
